@@ -111,6 +111,10 @@ impl Prop for Cluster {
         160
     }
 
+    fn breadcrumbs(&self) -> bool {
+        true
+    }
+
     fn shrink_budget(&self) -> usize {
         600
     }
